@@ -481,6 +481,21 @@ func (a *analyzer) exprType(e Expr, sc *scope, hint uint32) (uint32, error) {
 				}
 			}
 			return OIDVoid, nil
+		case "coalesce":
+			if len(x.Args) == 0 {
+				return 0, pgErr("42601", "coalesce needs arguments")
+			}
+			var oid uint32
+			for _, arg := range x.Args {
+				t, err := a.exprType(arg, sc, oid)
+				if err != nil {
+					return 0, err
+				}
+				if oid == 0 {
+					oid = t
+				}
+			}
+			return oid, nil
 		case "now":
 			return OIDTimestamptz, nil
 		case "current_database":
@@ -883,6 +898,17 @@ func (ec *evalCtx) eval(e Expr, sc *scope, row []Value) (Value, error) {
 			return ec.tx.db.Now(), nil
 		case "current_database":
 			return "shovel", nil
+		case "coalesce":
+			for _, arg := range x.Args {
+				v, err := ec.eval(arg, sc, row)
+				if err != nil {
+					return nil, err
+				}
+				if v != nil {
+					return v, nil
+				}
+			}
+			return nil, nil
 		case "pg_notify":
 			ch, err := ec.eval(x.Args[0], sc, row)
 			if err != nil {
